@@ -1,6 +1,6 @@
 //go:build verif
 
-package config
+package ref
 
 import (
 	"errors"
@@ -9,13 +9,14 @@ import (
 	"sort"
 	"time"
 
+	"github.com/mdlayher/corerad/internal/config"
 	"github.com/mdlayher/corerad/internal/plugin"
 	"github.com/mdlayher/corerad/internal/system"
 	"github.com/mdlayher/ndp"
 )
 
-// vfState is the system state an RA is built against.
-type vfState struct {
+// State is the system state an RA is built against.
+type State struct {
 	Name       string        `json:"name"`
 	Addrs      []system.IP   `json:"-"`
 	AddrNames  []string      `json:"addrs"`
@@ -26,7 +27,7 @@ type vfState struct {
 	AddrFail   bool          `json:"addr_source_fails,omitempty"`
 }
 
-func (s vfState) mac() net.HardwareAddr {
+func (s State) HW() net.HardwareAddr {
 	if s.MAC == "" {
 		return nil
 	}
@@ -37,7 +38,7 @@ func (s vfState) mac() net.HardwareAddr {
 	return m
 }
 
-func (s vfState) routes() []system.Route {
+func (s State) SysRoutes() []system.Route {
 	var out []system.Route
 	for _, r := range s.Routes {
 		out = append(out, system.Route{Prefix: netip.MustParsePrefix(r), Index: 1})
@@ -45,28 +46,28 @@ func (s vfState) routes() []system.Route {
 	return out
 }
 
-// vfAddresser is a fake system.Addresser (installed through the NewAddresser
+// Addresser is a fake system.Addresser (installed through the NewAddresser
 // seam when plugins are prepared by the real Prepare methods).
-type vfAddresser struct{ s *vfState }
+type Addresser struct{ S *State }
 
-func (a vfAddresser) AddressesByIndex(int) ([]system.IP, error) {
-	if a.s.AddrFail {
+func (a Addresser) AddressesByIndex(int) ([]system.IP, error) {
+	if a.S.AddrFail {
 		return nil, errors.New("verif: injected address listing failure")
 	}
-	return append([]system.IP(nil), a.s.Addrs...), nil
+	return append([]system.IP(nil), a.S.Addrs...), nil
 }
-func (a vfAddresser) LoopbackRoutes() ([]system.Route, error) {
-	if a.s.AddrFail {
+func (a Addresser) LoopbackRoutes() ([]system.Route, error) {
+	if a.S.AddrFail {
 		return nil, errors.New("verif: injected route dump failure")
 	}
-	return a.s.routes(), nil
+	return a.S.SysRoutes(), nil
 }
 
-// vfInject sets the plugins' runtime fields directly (what Prepare would do),
+// Inject sets the plugins' runtime fields directly (what Prepare would do),
 // with the clock fixed at epoch+Clock.
-func vfInject(ifi *Interface, s *vfState, epoch time.Time) {
+func Inject(ifi *config.Interface, s *State, epoch time.Time) {
 	now := func() time.Time { return epoch.Add(s.Clock) }
-	ad := vfAddresser{s}
+	ad := Addresser{S: s}
 	for _, p := range ifi.Plugins {
 		switch p := p.(type) {
 		case *plugin.Prefix:
@@ -78,12 +79,12 @@ func vfInject(ifi *Interface, s *vfState, epoch time.Time) {
 		case *plugin.RDNSS:
 			p.Addrs = func() ([]system.IP, error) { return ad.AddressesByIndex(1) }
 		case *plugin.LLA:
-			p.Addr = s.mac()
+			p.Addr = s.HW()
 		}
 	}
 }
 
-func ip(addr string, flags string) system.IP {
+func IP(addr string, flags string) system.IP {
 	x := system.IP{Address: netip.MustParsePrefix(addr)}
 	for _, c := range flags {
 		switch c {
@@ -106,7 +107,7 @@ func ip(addr string, flags string) system.IP {
 
 // --- expected RA (reference model for C01/C04/C17) ---------------------------
 
-func remain(epoch time.Time, life time.Duration, now time.Time) time.Duration {
+func Remain(epoch time.Time, life time.Duration, now time.Time) time.Duration {
 	d := epoch.Add(life).Sub(now)
 	if d < 0 {
 		return 0
@@ -114,8 +115,8 @@ func remain(epoch time.Time, life time.Duration, now time.Time) time.Duration {
 	return d
 }
 
-// refWildPrefixes: C13's set comprehension.
-func refWildPrefixes(addrs []system.IP) []netip.Prefix {
+// WildPrefixes: C13's set comprehension.
+func WildPrefixes(addrs []system.IP) []netip.Prefix {
 	set := map[netip.Prefix]bool{}
 	for _, a := range addrs {
 		x := a.Address.Addr()
@@ -132,8 +133,8 @@ func refWildPrefixes(addrs []system.IP) []netip.Prefix {
 	return out
 }
 
-// refWildRoutes: C15's set comprehension.
-func refWildRoutes(rs []system.Route) []netip.Prefix {
+// WildRoutes: C15's set comprehension.
+func WildRoutes(rs []system.Route) []netip.Prefix {
 	set := map[netip.Prefix]bool{}
 	for _, r := range rs {
 		p := r.Prefix
@@ -158,8 +159,8 @@ func refWildRoutes(rs []system.Route) []netip.Prefix {
 	return out
 }
 
-// refBestRDNSS: C14's ranking as a sort key.
-func refBestRDNSS(addrs []system.IP) (netip.Addr, bool) {
+// BestRDNSS: C14's ranking as a sort key.
+func BestRDNSS(addrs []system.IP) (netip.Addr, bool) {
 	key := func(a system.IP) (int, int, netip.Addr) {
 		x := a.Address.Addr()
 		b := x.As16()
@@ -198,10 +199,10 @@ func refBestRDNSS(addrs []system.IP) (netip.Addr, bool) {
 	return best.Address.Addr(), found
 }
 
-// refRA computes, from the EXPECTED configuration (reference model output) and
+// RA computes, from the EXPECTED configuration (reference model output) and
 // a system state, the router advertisement the statement of C01 calls for.
 // ok=false means RA generation must fail (source failure / no usable address).
-func refRA(ifi Interface, s *vfState, epoch time.Time) (*ndp.RouterAdvertisement, bool) {
+func RA(ifi config.Interface, s *State, epoch time.Time) (*ndp.RouterAdvertisement, bool) {
 	now := epoch.Add(s.Clock)
 	ra := &ndp.RouterAdvertisement{
 		CurrentHopLimit:           ifi.HopLimit,
@@ -223,11 +224,11 @@ func refRA(ifi Interface, s *vfState, epoch time.Time) (*ndp.RouterAdvertisement
 				if s.AddrFail {
 					return nil, false
 				}
-				ps = refWildPrefixes(s.Addrs)
+				ps = WildPrefixes(s.Addrs)
 			}
 			v, pr := p.ValidLifetime, p.PreferredLifetime
 			if p.Deprecated {
-				v, pr = remain(epoch, v, now), remain(epoch, pr, now)
+				v, pr = Remain(epoch, v, now), Remain(epoch, pr, now)
 			}
 			for _, x := range ps {
 				ra.Options = append(ra.Options, &ndp.PrefixInformation{
@@ -241,11 +242,11 @@ func refRA(ifi Interface, s *vfState, epoch time.Time) (*ndp.RouterAdvertisement
 				if s.AddrFail {
 					return nil, false
 				}
-				rs = refWildRoutes(s.routes())
+				rs = WildRoutes(s.SysRoutes())
 			}
 			lt := p.Lifetime
 			if p.Deprecated {
-				lt = remain(epoch, lt, now)
+				lt = Remain(epoch, lt, now)
 			}
 			for _, x := range rs {
 				ra.Options = append(ra.Options, &ndp.RouteInformation{
@@ -258,7 +259,7 @@ func refRA(ifi Interface, s *vfState, epoch time.Time) (*ndp.RouterAdvertisement
 				if s.AddrFail {
 					return nil, false
 				}
-				best, ok := refBestRDNSS(s.Addrs)
+				best, ok := BestRDNSS(s.Addrs)
 				if !ok {
 					return nil, false
 				}
@@ -270,7 +271,7 @@ func refRA(ifi Interface, s *vfState, epoch time.Time) (*ndp.RouterAdvertisement
 		case *plugin.MTU:
 			ra.Options = append(ra.Options, ndp.NewMTU(uint32(*p)))
 		case *plugin.LLA:
-			if m := s.mac(); m != nil {
+			if m := s.HW(); m != nil {
 				ra.Options = append(ra.Options, &ndp.LinkLayerAddress{Direction: ndp.Source, Addr: m})
 			}
 		case *plugin.CaptivePortal:
